@@ -55,11 +55,17 @@ def outcome(f):
         return 'IndexError'
 
 
+def c07_sizes(bound, tier):
+    """the square grid [2..bound]^2 (holds rows >= 2 cols and cols >= 2 rows as soon as bound >= 4) plus strips beyond it:
+    narrow side 2 or 3, long side bound+1 .. 12 (quick) / 16 (thorough), both orientations"""
+    return sizes(bound) + common.strips(range(2, 64), bound, 12 if tier == 'quick' else 16)
+
+
 def c07_cases(ctx, bound):
     from qecsim.models.toric import ToricCode
     rng = ctx.rng
-    for (R, C) in sizes(bound):
-        code = ToricCode(R, C)
+
+    def one_size(code, R, C):
         tag = 'toric {}x{}'.format(R, C)
         n = code.n_k_d[0]
         ctx.case('toric nkd {} {}'.format(R, C), '{} {} {}'.format(*code.n_k_d), meta={'tag': tag})
@@ -105,6 +111,11 @@ def c07_cases(ctx, bound):
         # new_pauli(bsf) round trip through the (lattice, row, column) arrays
         if not np.array_equal(rnd_pauli.to_bsf(), rnd):
             ctx.monitor_fail('new_pauli(bsf).to_bsf() is not the identity', {'code': tag, 'bsf': bits(rnd)})
+
+    grid = c07_sizes(bound, ctx.tier)
+    common.grid_report(ctx, NAME, grid)
+    for (R, C) in grid:
+        common.per_size(ctx, NAME, (R, C), lambda: ToricCode(R, C), one_size)
     # constructor domain
     U = common.ctor_universe()
     for (a, ta), (b, tb) in itertools.product(U, U):
